@@ -253,10 +253,11 @@ fn cmd_run(args: &[String]) {
                         k == db::SK::DidDiscard as u8 || k == db::SK::WillDiscardStaleOutput as u8 || k == db::SK::DidReuseInterned as u8 || k == db::SK::DidDiscardAccumulated as u8 || k == db::SK::WillIterateCycle as u8 || k == db::SK::DidFinalizeCycle as u8 || k == db::SK::DidSetCancellationFlag as u8 || k == 254
                     };
                     let rare_ev: Vec<u64> = (0..kinds.len()).filter(|i| kinds[*i] == prog::Cb::Event && rare(evk[*i])).map(|i| i as u64).collect();
-                    if rare_ev.len() <= 10 {
+                    let rare_cap = if c0.class.starts_with("ride:") { 24 } else { 10 };
+                    if rare_ev.len() <= rare_cap {
                         chosen.extend(rare_ev);
                     } else {
-                        for _ in 0..10 {
+                        for _ in 0..rare_cap {
                             chosen.push(*r.pick(&rare_ev));
                         }
                     }
@@ -344,7 +345,8 @@ fn cmd_run(args: &[String]) {
         if samples.len() < 2 && props::nontrivial(&c, &o) {
             samples.push(serde_json::json!({"seed": seed, "class": c.class, "program": c.prog, "history": c.hist, "knobs": c.knobs}));
         }
-        if prop == "C23" && n % 50 == 0 {
+        // (single-handle cases only: a concurrent case leaves pooled threads and scheduler state behind)
+        if prop == "C23" && c.engine != "e3" && n % 50 == 0 {
             let d = leak_delta(&c);
             *stats.entry("leak_probes".into()).or_insert(0) += 1;
             if d > 0 {
